@@ -28,12 +28,14 @@ import (
 	"strings"
 	"time"
 
+	"github.com/notaryproject/notation-core-go/signature"
 	"github.com/notaryproject/notation-go"
 	"github.com/notaryproject/notation-go/dir"
 	"github.com/notaryproject/notation-go/verifier"
 	"github.com/notaryproject/notation-go/verifier/trustpolicy"
 	"github.com/notaryproject/notation-go/verifier/truststore"
 	"github.com/notaryproject/notation-go/xverif/common"
+	pluginfw "github.com/notaryproject/notation-plugin-framework-go/plugin"
 	"github.com/opencontainers/go-digest"
 	ocispec "github.com/opencontainers/image-spec/specs-go/v1"
 )
@@ -51,6 +53,7 @@ type Stmt struct {
 	Scopes      []string `json:"scopes"`
 	TrustStores []string `json:"trustStores"`
 	Level       string   `json:"level"`
+	AuthLog     bool     `json:"authLog"`
 }
 
 type Input struct {
@@ -59,6 +62,8 @@ type Input struct {
 	Statements []Stmt   `json:"statements"`
 	Repo       string   `json:"repo"`
 	World      []Store  `json:"world"`
+	IdentityOk bool     `json:"identityOk"`
+	Plugin     string   `json:"plugin"`
 	Backend    string   `json:"backend"`
 	Format     string   `json:"format"`
 	Kind       string   `json:"kind"`
@@ -122,8 +127,10 @@ func newPKI() *pki {
 	return p
 }
 
-func (p *pki) env(chain, scheme, format string) []byte {
-	k := chain + "/" + scheme + "/" + format
+const pluginName = "c03-plugin"
+
+func (p *pki) env(chain, scheme, format string, plugin bool) []byte {
+	k := fmt.Sprint(chain, "/", scheme, "/", format, "/", plugin)
 	if b, ok := p.envs[k]; ok {
 		return b
 	}
@@ -134,7 +141,11 @@ func (p *pki) env(chain, scheme, format string) []byte {
 	if format == "cose" {
 		media = common.MediaCOSE
 	}
-	b := common.MustSign(common.EnvOpts{Format: media, Chain: p.chains[chain], Target: &target, Scheme: sch,
+	var attrs []signature.Attribute
+	if plugin {
+		attrs = append(attrs, signature.Attribute{Key: verifier.HeaderVerificationPlugin, Critical: true, Value: pluginName})
+	}
+	b := common.MustSign(common.EnvOpts{Format: media, Chain: p.chains[chain], Target: &target, Scheme: sch, ExtAttrs: attrs,
 		SigningTime: time.Now().Add(-time.Hour).Truncate(time.Second)})
 	p.envs[k] = b
 	return b
@@ -152,9 +163,11 @@ var storeNames = []string{"alpha", "beta", "gamma"}
 // place is what the generator put under one (type, name).
 type place struct {
 	ty, name string
-	kind     string // "certs" | "empty" | "broken"
+	kind     string // "certs" | "empty" | "broken" | "symlink" | "linkfile" (the last two: directory back end)
 	certs    []int
-	fault    int // variant of "broken" in the directory back end
+	fault    int    // variant of "broken" in the directory back end
+	link     string // symlink: "store" | "storeAbs" | "outside" | "dangling" | "file"
+	target   int    // symlink to a store: index of the place it points to
 }
 
 type acase struct {
@@ -172,16 +185,18 @@ type acase struct {
 	blobVerifyTimestamp            []string
 	mode                           string
 	prelude                        []string
+	plugin                         string // plugin variant of the verification under test
 }
 
 // call is one verification of a history.
 type call struct {
 	kind, scheme, chain, repo, world string
+	plugin                           string // "none" | "identity-success" | "identity-failure" | "identity+revocation-success" | "identity+revocation-failure" | "revocation-only"
 	phase                            string // "prelude:<kind>" | "test" | "repeat"
 }
 
 func (c call) String() string {
-	return c.kind + "/" + c.scheme + "/chain" + c.chain + "/" + c.repo + "/world=" + c.world
+	return c.kind + "/" + c.scheme + "/chain" + c.chain + "/" + c.repo + "/world=" + c.world + "/plugin=" + c.plugin
 }
 
 func wantType(scheme string) string {
@@ -196,6 +211,19 @@ var malformedValues = []string{"alpha", "ca", "", ":alpha", "ca:", "signingAutho
 	"x509:alpha", "ca: alpha", " ca:alpha", "ca;alpha", "tsa", "ca:..", "signingauthority:gamma", "ca:alpha ", "::"}
 
 func pick(r *rand.Rand, xs []string) string { return xs[r.Intn(len(xs))] }
+
+// pathValue draws a trustStores value of the wanted type whose NAME part is a path that the
+// file system would resolve to an existing store directory (of another type, of tsa, or an
+// unlisted store of the same type), or some other spelling that is not a plain file name.
+func pathValue(r *rand.Rand, want string) string {
+	n1, n2, ty := pick(r, storeNames), pick(r, storeNames), pick(r, storeTypes)
+	forms := []string{
+		"../" + ty + "/" + n1, "../" + want + "/" + n1, "./" + n1, n1 + "/", n1 + "/.", n1 + "/../" + n2, "../../x509/" + ty + "/" + n1,
+		"../../../truststore/x509/" + ty + "/" + n1, n1 + "/../../" + ty + "/" + n2, "/" + n1, "//" + n1, n1 + "\\..\\" + n2, "..\\" + ty + "\\" + n1,
+		"%2e%2e/" + ty + "/" + n1, "..%2f" + ty + "%2f" + n1, n1 + "/nested", ".", "..", "...", n1 + "\u0430", "\u2025/" + ty + "/" + n1, n1 + " ", n1 + "\t",
+	}
+	return want + ":" + pick(r, forms)
+}
 
 // genList draws a trustStores list: values type:name over the pool (plus the name "delta" that
 // is never placed), with duplicates, several types; `bias` is the probability of the wanted type.
@@ -224,6 +252,9 @@ func genList(r *rand.Rand, want string, bias float64, malformed bool) []string {
 		m := 1 + r.Intn(2)
 		for k := 0; k < m; k++ {
 			v := pick(r, malformedValues)
+			if r.Intn(2) == 0 {
+				v = pathValue(r, want)
+			}
 			pos := r.Intn(len(out) + 1)
 			out = append(out[:pos], append([]string{v}, out[pos:]...)...)
 		}
@@ -248,7 +279,7 @@ func genCase(r *rand.Rand) acase {
 	a.chain = pick(r, chainNames)
 	a.format = pick(r, []string{"jws", "cose"})
 	a.backend = pick(r, []string{"mem", "dir"})
-	a.malformed = r.Intn(8) == 0
+	a.malformed = r.Intn(6) == 0
 	want := wantType(a.scheme)
 	chain := chainIDs[a.chain]
 
@@ -261,7 +292,7 @@ func genCase(r *rand.Rand) acase {
 		wildAt = r.Intn(nst)
 	}
 	for k := 0; k < nst; k++ {
-		st := Stmt{Level: pick(r, []string{"strict", "permissive", "audit"})}
+		st := Stmt{Level: pick(r, []string{"strict", "permissive", "audit"}), AuthLog: r.Intn(4) == 0}
 		if k == wildAt {
 			st.Scopes = []string{"*"}
 		} else {
@@ -335,7 +366,7 @@ func genCase(r *rand.Rand) acase {
 	// the blob document: statements of the same names with other lists
 	for k := range a.stmts {
 		name := fmt.Sprintf("s%d", k)
-		st := Stmt{Scopes: []string{name}, Level: pick(r, []string{"strict", "permissive", "audit"})}
+		st := Stmt{Scopes: []string{name}, Level: pick(r, []string{"strict", "permissive", "audit"}), AuthLog: r.Intn(4) == 0}
 		switch {
 		case k == bapp:
 			st.TrustStores = steer(genList(r, want, 0.5, a.malformed), true)
@@ -470,6 +501,57 @@ func genCase(r *rand.Rand) acase {
 			}
 		}
 	}
+	// the directory back end: some stores are symbolic links to another store directory (of
+	// another type, of tsa, an unlisted one, a directory outside the tree, nothing, a file) or
+	// hold a symbolic link to a certificate file; the real store refuses to load such a store.
+	// In the adversarial mode the link stands where a listed store of the required type is
+	// expected and points at a store holding the chain.
+	if a.backend == "dir" {
+		var holders []int // places that hold certificates as plain directories
+		for k, pl := range a.places {
+			if pl.kind == "certs" {
+				holders = append(holders, k)
+			}
+		}
+		for k := range a.places {
+			pl := &a.places[k]
+			counts := pl.ty == want && listed[pl.name]
+			convert := r.Intn(15) == 0
+			if a.mode == "adversarial" && counts {
+				convert = r.Intn(3) == 0
+			}
+			if a.mode == "good-broken" && pl.kind == "broken" && counts {
+				convert = r.Intn(2) == 0
+			}
+			if !convert {
+				continue
+			}
+			if r.Intn(4) == 0 {
+				pl.kind = "linkfile"
+				if r.Intn(2) == 0 {
+					pl.certs = nil // nothing but the link
+				}
+				continue
+			}
+			pl.kind = "symlink"
+			pl.link = pick(r, []string{"store", "store", "store", "storeAbs", "storeAbs", "outside", "outside", "dangling", "file"})
+			if strings.HasPrefix(pl.link, "store") {
+				var cands []int
+				for _, h := range holders {
+					if h != k {
+						cands = append(cands, h)
+					}
+				}
+				if len(cands) == 0 {
+					pl.link = "outside"
+				} else {
+					pl.target = cands[r.Intn(len(cands))]
+				}
+			}
+		}
+	}
+	a.plugin = pick(r, []string{"none", "none", "none", "identity-success", "identity-success", "identity-failure", "identity+revocation-success", "identity+revocation-failure", "revocation-only"})
+
 	// a tsa store in the list switches timestamp verification on (notary.x509): under the strict
 	// level the missing countersignature would be fatal, so those statements verify timestamps
 	// only after certificate expiry (the certificates are valid, hence no timestamp verification)
@@ -479,6 +561,12 @@ func genCase(r *rand.Rand) acase {
 			for _, e := range st.TrustStores {
 				if strings.HasPrefix(e, "tsa:") {
 					hasTSA = true
+				}
+				if !strings.Contains(e, ":") && st.Level == "strict" && st.AuthLog {
+					// a value without separator also fails the authenticTimestamp validation
+					// (isTSATrustStoreInPolicy), which strict enforces: with authenticity only
+					// logged that would decide acceptance instead of authenticity
+					stmts[k].Level = "permissive"
 				}
 			}
 			if hasTSA && (st.Level == "strict" || r.Intn(3) == 0) {
@@ -507,7 +595,7 @@ func genCase(r *rand.Rand) acase {
 	}
 
 	// the prelude: what the same verifier verifies before the case under test
-	kinds := []string{"otherScheme", "otherChain", "otherStatement", "otherDoc", "otherDocOtherScheme", "worldSwap", "worldSwap", "worldSwapBroken"}
+	kinds := []string{"otherScheme", "otherChain", "otherStatement", "otherDoc", "otherDocOtherScheme", "worldSwap", "worldSwap", "worldSwapBroken", "otherPlugin"}
 	np := 0
 	switch x := r.Intn(20); {
 	case x < 5:
@@ -533,7 +621,8 @@ func otherOf(r *rand.Rand, xs []string, not string) string {
 
 // history lists the verifications of a scenario, in order: prelude, test, repeat.
 func history(r *rand.Rand, a acase) []call {
-	test := call{kind: a.testKind, scheme: a.scheme, chain: a.chain, repo: a.repo, world: "base", phase: "test"}
+	test := call{kind: a.testKind, scheme: a.scheme, chain: a.chain, repo: a.repo, world: "base", plugin: a.plugin, phase: "test"}
+	plugins := []string{"none", "identity-success", "identity-failure", "identity+revocation-success", "identity+revocation-failure", "revocation-only"}
 	otherScheme := otherOf(r, []string{"x509", "signingAuthority"}, a.scheme)
 	name := func(k int) string { return fmt.Sprintf("s%d", k) }
 	var out []call
@@ -574,8 +663,13 @@ func history(r *rand.Rand, a acase) []call {
 					c.repo = "reg.example/none"
 				}
 			}
+		case "otherPlugin":
+			c.plugin = otherOf(r, plugins, a.plugin)
 		case "worldSwap":
 			c.world = "poison"
+			if r.Intn(3) == 0 {
+				c.plugin = "identity-success"
+			}
 		case "worldSwapBroken":
 			c.world = "broken"
 		}
@@ -613,7 +707,7 @@ func memWorld(p *pki, places []place) (*common.MemStore, []Store) {
 	for _, pl := range places {
 		k := pl.ty + ":" + pl.name
 		switch pl.kind {
-		case "broken":
+		case "broken", "symlink", "linkfile":
 			ms.Errs[k] = errors.New("scripted load failure")
 			w = append(w, Store{pl.ty, pl.name, false, nonNil(pl.certs)})
 		case "empty":
@@ -635,11 +729,46 @@ func memWorld(p *pki, places []place) (*common.MemStore, []Store) {
 // world is activated) and computes, from what it wrote,
 // what the real store answers: a store loads iff it is a directory holding at least one
 // certificate file and only certificates the store accepts (CA or self-signed; root CA under tsa).
-func dirWorld(p *pki, places []place, tsroot string) []Store {
+func dirWorld(p *pki, places []place, tsroot, liveRoot string, chain []int) []Store {
 	w := []Store{}
 	must(os.MkdirAll(tsroot, 0o755))
+	// a directory outside the trust store tree, holding the chain's certificates
+	outside := tsroot + "-outside"
+	outsideFile := filepath.Join(outside, "certs", "chain.pem")
+	mkOutside := func() {
+		var cs []*x509.Certificate
+		for _, id := range chain {
+			if caOrSelfSigned[id] {
+				cs = append(cs, p.certs[id])
+			}
+		}
+		must(os.MkdirAll(filepath.Join(outside, "certs"), 0o755))
+		must(os.WriteFile(outsideFile, common.PEM(cs...), 0o644))
+	}
 	for _, pl := range places {
 		d := filepath.Join(tsroot, "x509", pl.ty, pl.name)
+		if pl.kind == "symlink" {
+			// the store is a symbolic link: the real store must refuse to load it
+			must(os.MkdirAll(filepath.Dir(d), 0o755))
+			var to string
+			switch pl.link {
+			case "store":
+				to = filepath.Join("..", places[pl.target].ty, places[pl.target].name)
+			case "storeAbs":
+				to = filepath.Join(liveRoot, "x509", places[pl.target].ty, places[pl.target].name)
+			case "outside":
+				mkOutside()
+				to = filepath.Join(outside, "certs")
+			case "file":
+				mkOutside()
+				to = outsideFile
+			default:
+				to = filepath.Join("..", pl.ty, "no-such-store")
+			}
+			must(os.Symlink(to, d))
+			w = append(w, Store{pl.ty, pl.name, false, []int{}})
+			continue
+		}
 		must(os.MkdirAll(d, 0o755))
 		st := Store{pl.ty, pl.name, true, []int{}}
 		write := func() {
@@ -669,6 +798,12 @@ func dirWorld(p *pki, places []place, tsroot string) []Store {
 			}
 		}
 		switch pl.kind {
+		case "linkfile":
+			// good certificates (or none) and a symbolic link to a certificate file: does not load
+			write()
+			mkOutside()
+			must(os.Symlink(outsideFile, filepath.Join(d, "50-link.pem")))
+			st.Ok = false
 		case "empty":
 			st.Ok = false // "no x509 certificates were found"
 		case "broken":
@@ -708,13 +843,15 @@ type scenario struct {
 		notation.Verifier
 		notation.BlobVerifier
 	}
-	ms      *common.MemStore            // mem back end: the ONE store object; its contents are swapped
-	memW    map[string]*common.MemStore // contents per world
-	ls      *loggingStore               // dir back end: the real store behind the call log
-	root    string
-	active  string             // dir back end: the world currently at <root>/truststore
-	worlds  map[string][]Store // what the model is told about each world
-	history []string
+	ms        *common.MemStore            // mem back end: the ONE store object; its contents are swapped
+	memW      map[string]*common.MemStore // contents per world
+	ls        *loggingStore               // dir back end: the real store behind the call log
+	root      string
+	active    string             // dir back end: the world currently at <root>/truststore
+	worlds    map[string][]Store // what the model is told about each world
+	history   []string
+	plugin    *common.ScriptedPlugin // the one installed verification plugin; scripted per call
+	validated bool                   // the documents passed Validate as generated
 }
 
 func newScenario(c *common.Ctx, p *pki, a acase, seq int, extra map[string][]place) *scenario {
@@ -734,45 +871,65 @@ func newScenario(c *common.Ctx, p *pki, a acase, seq int, extra map[string][]pla
 		sc.root = filepath.Join(c.WorkDir, fmt.Sprintf("w%d", seq))
 		must(os.MkdirAll(sc.root, 0o755))
 		for w, pl := range placesOf {
-			sc.worlds[w] = dirWorld(p, pl, filepath.Join(sc.root, "ts-"+w))
+			sc.worlds[w] = dirWorld(p, pl, filepath.Join(sc.root, "ts-"+w), filepath.Join(sc.root, "truststore"), chainIDs[a.chain])
 		}
 		sc.ls = &loggingStore{inner: truststore.NewX509TrustStore(dir.NewSysFS(sc.root))}
 		store = sc.ls
 	}
 	// the policy documents; values a validated policy cannot carry are written after the
 	// verifier has validated the documents (the verifier keeps the caller's documents)
-	doc := &trustpolicy.OCIDocument{Version: "1.0"}
-	bdoc := &trustpolicy.BlobDocument{Version: "1.0"}
-	skipRevocation := func() map[trustpolicy.ValidationType]trustpolicy.ValidationAction {
-		return map[trustpolicy.ValidationType]trustpolicy.ValidationAction{trustpolicy.TypeRevocation: trustpolicy.ActionSkip}
-	}
-	lists := func(ts []string) []string {
-		if a.malformed {
-			return []string{"ca:placeholder"}
+	// The documents are first handed over as generated: values that are not `type:name` with a
+	// plain file name must be refused by Validate. When they are, the same values are written into
+	// the documents after a construction with placeholders (second line of defence: the loop
+	// and the store itself). Either way the verification below runs over the generated lists.
+	override := func(st Stmt) map[trustpolicy.ValidationType]trustpolicy.ValidationAction {
+		m := map[trustpolicy.ValidationType]trustpolicy.ValidationAction{trustpolicy.TypeRevocation: trustpolicy.ActionSkip}
+		if st.AuthLog {
+			m[trustpolicy.TypeAuthenticity] = trustpolicy.ActionLog
 		}
-		return append([]string{}, ts...)
+		return m
 	}
-	for k, st := range a.stmts {
-		doc.TrustPolicies = append(doc.TrustPolicies, trustpolicy.OCITrustPolicy{
-			Name: fmt.Sprintf("s%d", k), RegistryScopes: st.Scopes,
-			SignatureVerification: trustpolicy.SignatureVerification{VerificationLevel: st.Level, Override: skipRevocation(), VerifyTimestamp: trustpolicy.TimestampOption(a.verifyTimestamp[k])},
-			TrustStores:           lists(st.TrustStores),
-			TrustedIdentities:     []string{"*"},
-		})
+	build := func(placeholder bool) (*trustpolicy.OCIDocument, *trustpolicy.BlobDocument) {
+		lists := func(ts []string) []string {
+			if placeholder {
+				return []string{"ca:placeholder"}
+			}
+			return append([]string{}, ts...)
+		}
+		doc := &trustpolicy.OCIDocument{Version: "1.0"}
+		bdoc := &trustpolicy.BlobDocument{Version: "1.0"}
+		for k, st := range a.stmts {
+			doc.TrustPolicies = append(doc.TrustPolicies, trustpolicy.OCITrustPolicy{
+				Name: fmt.Sprintf("s%d", k), RegistryScopes: st.Scopes,
+				SignatureVerification: trustpolicy.SignatureVerification{VerificationLevel: st.Level, Override: override(st), VerifyTimestamp: trustpolicy.TimestampOption(a.verifyTimestamp[k])},
+				TrustStores:           lists(st.TrustStores),
+				TrustedIdentities:     []string{"*"},
+			})
+		}
+		for k, st := range a.blobStmts {
+			bdoc.TrustPolicies = append(bdoc.TrustPolicies, trustpolicy.BlobTrustPolicy{
+				Name:                  st.Scopes[0],
+				SignatureVerification: trustpolicy.SignatureVerification{VerificationLevel: st.Level, Override: override(st), VerifyTimestamp: trustpolicy.TimestampOption(a.blobVerifyTimestamp[k])},
+				TrustStores:           lists(st.TrustStores),
+				TrustedIdentities:     []string{"*"},
+			})
+		}
+		return doc, bdoc
 	}
-	for k, st := range a.blobStmts {
-		bdoc.TrustPolicies = append(bdoc.TrustPolicies, trustpolicy.BlobTrustPolicy{
-			Name:                  st.Scopes[0],
-			SignatureVerification: trustpolicy.SignatureVerification{VerificationLevel: st.Level, Override: skipRevocation(), VerifyTimestamp: trustpolicy.TimestampOption(a.blobVerifyTimestamp[k])},
-			TrustStores:           lists(st.TrustStores),
-			TrustedIdentities:     []string{"*"},
-		})
-	}
-	v, err := verifier.NewVerifierWithOptions(store, verifier.VerifierOptions{OCITrustPolicy: doc, BlobTrustPolicy: bdoc})
+	sc.plugin = &common.ScriptedPlugin{}
+	mgr := &common.ScriptedManager{Plugins: map[string]pluginfw.Plugin{pluginName: sc.plugin}}
+	doc, bdoc := build(false)
+	v, err := verifier.NewVerifierWithOptions(store, verifier.VerifierOptions{OCITrustPolicy: doc, BlobTrustPolicy: bdoc, PluginManager: mgr})
+	sc.validated = err == nil
 	if err != nil {
-		panic(fmt.Sprintf("c03: the generated policy documents are refused: %v", err))
-	}
-	if a.malformed {
+		if !a.malformed {
+			panic(fmt.Sprintf("c03: the generated policy documents are refused: %v", err))
+		}
+		doc, bdoc = build(true)
+		v, err = verifier.NewVerifierWithOptions(store, verifier.VerifierOptions{OCITrustPolicy: doc, BlobTrustPolicy: bdoc, PluginManager: mgr})
+		if err != nil {
+			panic(fmt.Sprintf("c03: the placeholder policy documents are refused: %v", err))
+		}
 		for k, st := range a.stmts {
 			doc.TrustPolicies[k].TrustStores = append([]string{}, st.TrustStores...)
 		}
@@ -812,7 +969,8 @@ func (sc *scenario) close() {
 func (sc *scenario) verify(cl call) (Input, Obs) {
 	a := sc.a
 	in := Input{Scheme: cl.scheme, Chain: chainIDs[cl.chain], Repo: cl.repo, Backend: a.backend, Format: a.format,
-		Kind: cl.kind, World: sc.worlds[cl.world], History: append([]string{}, sc.history...)}
+		Kind: cl.kind, World: sc.worlds[cl.world], History: append([]string{}, sc.history...),
+		Plugin: cl.plugin, IdentityOk: !strings.HasSuffix(cl.plugin, "-failure")}
 	if cl.kind == "oci" {
 		in.Statements = a.stmts
 	} else {
@@ -828,7 +986,26 @@ func (sc *scenario) verify(cl call) (Input, Obs) {
 	if a.format == "cose" {
 		media = common.MediaCOSE
 	}
-	env := sc.p.env(cl.chain, cl.scheme, a.format)
+	env := sc.p.env(cl.chain, cl.scheme, a.format, cl.plugin != "none")
+	if cl.plugin != "none" {
+		caps := []pluginfw.Capability{pluginfw.CapabilitySignatureGenerator}
+		if strings.HasPrefix(cl.plugin, "identity") {
+			caps = append(caps, pluginfw.CapabilityTrustedIdentityVerifier)
+		}
+		if strings.Contains(cl.plugin, "revocation") {
+			caps = append(caps, pluginfw.CapabilityRevocationCheckVerifier)
+		}
+		sc.plugin.Metadata = &pluginfw.GetMetadataResponse{Name: pluginName, Description: "d", Version: "1.0.0", URL: "u",
+			SupportedContractVersions: []string{"1.0"}, Capabilities: caps}
+		idv := &pluginfw.VerificationResult{Success: true}
+		if !in.IdentityOk {
+			idv = &pluginfw.VerificationResult{Success: false, Reason: "identity not trusted"}
+		}
+		sc.plugin.VerifyResp = &pluginfw.VerifySignatureResponse{VerificationResults: map[pluginfw.Capability]*pluginfw.VerificationResult{
+			pluginfw.CapabilityTrustedIdentityVerifier: idv,
+			pluginfw.CapabilityRevocationCheckVerifier: {Success: true},
+		}}
+	}
 	var outcome *notation.VerificationOutcome
 	var verr error
 	if cl.kind == "oci" {
@@ -906,6 +1083,16 @@ func Run(c *common.Ctx) error {
 		c.Count("scenario: backend=" + a.backend)
 		if a.malformed {
 			c.Count("scenario: malformed-values")
+			if sc.validated {
+				c.Count("scenario: malformed-values accepted by Validate as generated")
+			} else {
+				c.Count("scenario: malformed-values refused by Validate, written after construction")
+			}
+		}
+		for _, pl := range a.places {
+			if pl.kind == "symlink" || pl.kind == "linkfile" {
+				c.Count("store-kind=" + pl.kind)
+			}
 		}
 		for _, cl := range calls {
 			in, o := sc.verify(cl)
@@ -913,6 +1100,7 @@ func Run(c *common.Ctx) error {
 			c.Count("phase=" + cl.phase)
 			c.Count("result=" + o.Result)
 			c.Count("kind=" + cl.kind)
+			c.Count("plugin=" + cl.plugin)
 			c.Count("scheme=" + cl.scheme)
 			c.Count("format=" + a.format)
 			c.Count("chain=" + cl.chain)
